@@ -35,6 +35,7 @@ var c04entries = []string{"ParseQuery", "ParseStatement", "ParseExpr"}
 
 var c04maxTokPush, c04maxRunePush int64
 var c04hung int32
+var c04slow int64
 var c04hangAfter = 60 * time.Second
 
 func noteMax(dst *int64, v int) {
@@ -93,8 +94,19 @@ func c04parse(text string, entry int, params map[string]interface{}, cs interfac
 	case <-done:
 		timer.Stop()
 	case <-timer.C:
-		atomic.StoreInt32(&c04hung, 1)
-		return []ev.Finding{{Sig: "hang:" + c04entries[entry], Witness: witness, Detail: fmt.Sprintf("%s did not return within %v (the inputs parsed earlier in this process may be part of the cause: state carried between calls)", c04entries[entry], c04hangAfter), Case: cs, Rank: rank}}, false
+		// a second full wait: a process that was merely stopped for a while (and whose timer fired on resumption)
+		// finishes the parse now; a blocked one does not
+		timer2 := time.NewTimer(c04hangAfter)
+		select {
+		case <-done:
+			timer2.Stop()
+			atomic.AddInt64(&c04slow, 1)
+		case <-timer2.C:
+			atomic.StoreInt32(&c04hung, 1)
+			// one signature for every entry point: what blocks is state of the process, and on replay the first entry
+			// point tried is the one that blocks
+			return []ev.Finding{{Sig: "hang", Witness: witness, Detail: fmt.Sprintf("%s did not return within %v (the inputs parsed earlier in this process may be part of the cause: state carried between calls)", c04entries[entry], 2*c04hangAfter), Case: cs, Rank: rank}}, false
+		}
 	}
 	name := c04entries[entry]
 	rep := func(sig, detail string) {
@@ -303,7 +315,7 @@ func c04editBody(alpha []string) func(c *xplore.Ctx) (string, string, []ev.Findi
 func init() {
 	register(&Check{ID: "C04", Run: c04run, Replay: func(raw json.RawMessage) []ev.Finding {
 		if atomic.LoadInt32(&c04hung) != 0 {
-			c04hangAfter = 10 * time.Second // the process is already known to be stuck; confirming it need not take long
+			c04hangAfter = 5 * time.Second // the process is already known to be stuck; confirming it need not take long
 		}
 		atomic.StoreInt32(&c04hung, 0)
 		var probe map[string]json.RawMessage
@@ -438,6 +450,7 @@ func c04run(r *ev.Run) {
 	r.Set("adversarial_parameter_values", len(c04params))
 	r.Set("accepted_inputs", acceptedN)
 	r.Set("deepest_token_pushback_observed", atomic.LoadInt64(&c04maxTokPush))
+	r.Set("parses_slower_than_hang_guard_but_finished", atomic.LoadInt64(&c04slow))
 	r.Set("deepest_rune_pushback_observed", atomic.LoadInt64(&c04maxRunePush))
 	r.Set("scan_budget", "40*(runes+8) token reads per parse, enforced by the hook")
 	r.Rule = fmt.Sprintf("(a) every concatenation of <=%d lexeme spellings from %d x {ParseQuery, ParseStatement, ParseExpr}; (b) every single-token edit (delete / replace by each spelling / insert each spelling) at every position of every statement of the grammar model within the bound; (c) %d nesting/length ladders for n = 1,2,4,…,%d; (d) every byte string of length <=2 and every length-3 string over %d selected bytes; (e) every value slot of the grammar corpus replaced by a placeholder bound to each of %d adversarial values (and unbound / empty). Oracle: no panic; (result,nil) xor (nil,error); no read of an unfilled or overwritten pushback slot (hook); token reads <= 40*(runes+8) (hook budget, a deterministic stand-in for time proportional to the input); String() and Walk of a result do not panic. non-trivial = non-empty input", k, n, len(c04ladders), maxN, len(sel), len(c04params))
